@@ -4,6 +4,7 @@ import (
 	"fmt"
 	"go/token"
 	"go/types"
+	"unicode/utf8"
 
 	"golang.org/x/tools/go/ssa"
 )
@@ -808,13 +809,33 @@ func (ex *Exec) rangeNext(fr *frame, in *ssa.Next) Value {
 			return Tuple{ex.B.False, ex.i64(0), ex.B.Const(32, 0)}
 		}
 		b := it.str.B[it.i]
-		// ASCII only: a byte >= 0x80 would start a multi-byte rune
-		if !ex.X.Branch(ex.B.Bin(OUlt, b, ex.B.Const(8, 0x80))) {
-			ex.abort("unsupported", "range over non-ASCII string at "+ex.where(fr))
-		}
 		k := it.i
-		it.i++
-		return Tuple{ex.B.True, ex.i64(int64(k)), ex.B.Zext(b, 32)}
+		if b.Op == OConst && b.Val >= 0x80 {
+			// concrete multi-byte / invalid sequence: decode as Go does (needs concrete continuation bytes)
+			var raw []byte
+			for j := it.i; j < len(it.str.B) && j < it.i+4; j++ {
+				if it.str.B[j].Op != OConst {
+					break
+				}
+				raw = append(raw, byte(it.str.B[j].Val))
+			}
+			r, size := utf8.DecodeRune(raw)
+			if len(raw) < 4 && it.i+len(raw) < len(it.str.B) && !utf8.FullRune(raw) {
+				ex.abort("unsupported", "range over a string with symbolic UTF-8 continuation bytes at "+ex.where(fr))
+			}
+			it.i += size
+			return Tuple{ex.B.True, ex.i64(int64(k)), ex.B.Const(32, uint64(r))}
+		}
+		if ex.X.Branch(ex.B.Bin(OUlt, b, ex.B.Const(8, 0x80))) {
+			it.i++
+			return Tuple{ex.B.True, ex.i64(int64(k)), ex.B.Zext(b, 32)}
+		}
+		// a symbolic byte >= 0x80: decidable only when it is the last byte (a lone one is invalid UTF-8)
+		if it.i == len(it.str.B)-1 {
+			it.i++
+			return Tuple{ex.B.True, ex.i64(int64(k)), ex.B.Const(32, 0xFFFD)}
+		}
+		ex.abort("unsupported", "range over non-ASCII symbolic string at "+ex.where(fr))
 	}
 	tt := in.Type().(*types.Tuple)
 	for it.m != nil && it.i < len(it.keys) {
